@@ -83,7 +83,9 @@ def make(mix_index: int, maxlen: int, rate_limit: int, restart: bool):
                         rec["end"] = loop.time()
 
             xknx.knxip_interface = Fake()  # type: ignore[assignment]
-            xknx.group_address_dpt.set({"1/1/1": "temperature"})   # a DPT that does not fit the 1-bit payloads on GA1
+            # GA1: a DPT that does not fit the 1-bit payloads (wrong payload kind); GA2: a DPT whose payload shape fits but whose
+            # value cannot be converted (an undefined enumeration code) - both kinds of eager-decoding failure in front of the consumer
+            xknx.group_address_dpt.set({"1/1/1": "temperature", "1/1/2": "20.102"})
             cb_log: list[Any] = []
             dev_good = Switch(xknx, "good", group_address="1/1/1")
             dev_bad = RaisingSwitch(xknx, "bad", group_address="1/1/2")
@@ -121,7 +123,7 @@ def make(mix_index: int, maxlen: int, rate_limit: int, restart: bool):
                 if kind == "out-GA1":
                     t = Telegram(GA1, payload=GroupValueWrite(DPTArray((i + 1,))), direction=TelegramDirection.OUTGOING)
                 elif kind == "out-GA2":
-                    t = Telegram(GA2, payload=GroupValueWrite(DPTArray((i + 1,))), direction=TelegramDirection.OUTGOING)
+                    t = Telegram(GA2, payload=GroupValueWrite(DPTArray((0xF0 + i,))), direction=TelegramDirection.OUTGOING)
                 elif kind == "out-internal":
                     t = Telegram(InternalGroupAddress("i-test"), payload=GroupValueWrite(DPTBinary(1)), direction=TelegramDirection.OUTGOING)
                 else:
@@ -207,7 +209,7 @@ def run(ctx: Ctx) -> None:
     ctx.rule = (
         f"real XKNX (start/join/stop, TelegramQueue, devices, callbacks) over a fake interface: ALL {n} telegram mixes of length <= {maxlen} over {KINDS} x rate limit {{0, 20}} (+ a start-stop-start "
         f"variant and a variant with a complete first session - send, join, stop inside the rate-limit pause - before the explored one) x stop mode {STOP}; per send_cemi the interface outcome is one of {SEND}; every schedule with <= {bound} non-default outcomes; a raising callback, a raising device, a "
-        "mismatching GA-DPT entry and a callback that queues a follow-up telegram are always present. Oracle: interface order = queue order, never two sends in flight, >= 1/r apart, internal "
+        "GA-DPT entry of the wrong payload kind, one whose value cannot be converted, and a callback that queues a follow-up telegram are always present. Oracle: interface order = queue order, never two sends in flight, >= 1/r apart, internal "
         "telegrams never reach the interface but their device, callbacks/devices still run after a raising one, every telegram marked done, join() and stop() return within 120 s of virtual time"
     )
     ctx.bounds = {"deviation_bound": bound, "mixes": n}
